@@ -261,7 +261,11 @@ def run(ck):
             if nx is not None:
                 order = []
                 for a in nx['args']:
-                    acc = next((x for x in H.calls_in(a) if 'LayoutItemAttached' in (H.callee_decl(x) or '')), None)
+                    srcs = [a]
+                    b_ = H.binding_sites(pn).get((H.root_local(a) or {}).get('hid')) if H.strip_refs(a).get('k') == 'Path' else None
+                    if b_ is not None and b_['kind'] == 'let' and b_['node'].get('init') is not None:
+                        srcs.append(b_['node']['init'])
+                    acc = next((x for s_ in srcs for x in H.calls_in(s_) if 'LayoutItemAttached' in (H.callee_decl(x) or '')), None)
                     order.append(accessor_key(L, acc) if acc is not None else None)
                 ck.ob('R12.3', 'next-arg-order', order == ['row', 'column'], L.loc(nx), 'self.next(%s)' % order)
         ifs = [n for n in walk(mp['body']) if n.get('k') == 'If']
@@ -304,45 +308,97 @@ def run(ck):
             for a, b in rename.items():
                 s = re.sub(r'\b%s\b' % re.escape(a), b, s)
             return s
-        # explicit-position chain: if let (Some(r), Some(c)) .. else if let Some(r) = row .. else if let Some(c) = column
-        chain = []
-        cur = next((n for n in walk(nx['body']) if n.get('k') == 'If' and n['c'].get('k') == 'LetCond'), None)
-        while cur is not None and cur.get('k') == 'If':
-            chain.append(cur)
-            cur = cur.get('els')
-            if cur is not None and cur.get('k') == 'Block' and not cur.get('stmts') and 'e' in cur:
-                cur = cur['e']
-        ck.ob('R12.4', 'explicit-chain-shape', len(chain) == 3, L.loc(nx['body']), '%d explicit-position branches (both, row only, column only)' % len(chain))
-        if len(chain) == 3:
-            bs = H.binding_sites(nx)
-            def branch_sig(ifn):
-                b = H.pat_bindings(ifn['c']['pat'])
-                ren = {x['name']: 'V%d' % i for i, x in enumerate(b)}
-                src = H.root_local(ifn['c']['e'])
-                which = bs.get(src['hid'], {}).get('index') if src is not None else None
-                return norm(ifn['then'], ren), which
-            s_row, w_row = branch_sig(chain[1])
-            s_col, w_col = branch_sig(chain[2])
-            ck.ob('R12.4', 'row-only-branch-tests-row-param', (w_row, w_col) == (1, 2), L.loc(chain[1]), 'branch 2 tests parameter #%s, branch 3 parameter #%s (self is #0)' % (w_row, w_col))
-            def arms_canon(s):
-                # canonicalise `match X { a => b, c => d }` arm order inside an already printed string
+        # explicit-position cases, read path-wise (if-let chain or `match (row, column)` alike): which parameters are Some on the
+        # path, and what is assigned to the cursor fields there
+        bs = H.binding_sites(nx)
+        pidx = {h: b['index'] for h, b in bs.items() if b['kind'] == 'param'}     # self=0, row=1, column=2
+
+        def some_params(pat, scrut):
+            """{param index: binding hid or None} for the parameters this pattern requires to be Some; [] for None-patterns."""
+            out = {}
+            nones = set()
+            p = pat
+            while p.get('k') in ('PRef', 'PDeref'):
+                p = p['p']
+            sc = H.strip_refs(scrut)
+            parts = list(zip(p['subs'], sc['es'])) if p.get('k') == 'PTup' and sc.get('k') == 'Tup' and len(p['subs']) == len(sc['es']) else [(p, sc)]
+            for sp_, se in parts:
+                r = H.root_local(se)
+                i = pidx.get((r or {}).get('hid'))
+                if i is None:
+                    continue
+                q = sp_
+                while q.get('k') in ('PRef', 'PDeref'):
+                    q = q['p']
+                if q.get('k') == 'PTS' and (q.get('def') or '').endswith('Option::Some'):
+                    b = H.pat_bindings(q)
+                    out[i] = b[0]['hid'] if b else None
+                elif q.get('k') == 'PPath' and (q.get('def') or '').endswith('Option::None'):
+                    nones.add(i)
+            return out, nones
+        first = None
+        for st in nx['body'].get('stmts', []):
+            e = st.get('e') or st.get('init')
+            if e is not None and e.get('k') in ('If', 'Match') and st.get('k') != 'Let':
+                first = e
+                break
+        cases = {}
+        stray = []
+        if first is not None:
+            def ev(n):
+                if n.get('k') == 'Assign' and n['l'].get('k') == 'Field' and n['l'].get('f') in ('next_row', 'next_column'):
+                    return n
+                return None
+            for ctx, evs, ex in H.paths(first, ev):
+                somes, nones, ren = {}, set(), {}
+                for lab, node in ctx:
+                    if lab == 'then' and node['c'].get('k') == 'LetCond':
+                        so, no = some_params(node['c']['pat'], node['c']['e'])
+                        somes.update(so)
+                        nones |= no
+                    elif lab == 'arm':
+                        par = H.parents(nx).get(id(node))
+                        if par is not None and par.get('k') == 'Match' and par is first:
+                            so, no = some_params(node['pat'], par['e'])
+                            somes.update(so)
+                            nones |= no
+                for i, h in somes.items():
+                    if h is not None:
+                        ren[bs[h]['bind']['name']] = 'ROWV' if i == 1 else 'COLV'
+                key = tuple(sorted(i for i in somes))
+                if not key:
+                    if evs:
+                        stray.append(sorted('%s := %s' % (a['l']['f'], norm(a['r'], ren)) for a in evs))
+                    continue      # neither given: the cursor stays where it is
+                # several paths of one case differ only by the nested flow match: events of the outer case are the same set
+                sig = sorted('%s := %s' % (a['l']['f'], norm(a['r'], ren)) for a in evs)
+                cases.setdefault(key, set()).add(tuple(sig))
+        got_keys = sorted(cases)
+        ck.ob('R12.4', 'explicit-chain-shape', got_keys == [(1,), (1, 2), (2,)] and all(len(v) == 1 for v in cases.values()), L.loc(nx['body']),
+              'explicit-position cases found: %s (both, row only, column only)' % got_keys if all(len(v) == 1 for v in cases.values()) else
+              'a case moves the cursor on some of its paths only: %s' % {k: sorted(v) for k, v in cases.items() if len(v) != 1})
+        ck.ob('R12.4', 'nothing-given-moves-nothing', not stray, L.loc(nx['body']),
+              'without an explicit position the cursor is not moved before the cell is taken' if not stray else 'assignments with neither given: %s' % stray)
+        if got_keys == [(1,), (1, 2), (2,)] and all(len(v) == 1 for v in cases.values()):
+            def arms_canon(s_):
                 def fix(m):
                     arms = sorted(x.strip() for x in m.group(2).split(', '))
                     return 'match %s { %s }' % (m.group(1), ', '.join(arms))
-                return re.sub(r'match ([^{]+) \{ ([^{}]*(?:\{[^{}]*\}[^{}]*)*) \}', fix, s)
-            s_row_m = arms_canon(mirror(s_row))
-            s_col = arms_canon(s_col)
-            ck.ob('R12.4', 'row-only~column-only-mirror', s_row_m == s_col, L.loc(chain[1]),
-                  'the row-only and column-only branches are mirror images' if s_row_m == s_col else
-                  'row-only branch `%s` is not the mirror image of column-only branch `%s`' % (s_row[:160], s_col[:160]))
-            # the both-given branch assigns both fields from its two bindings
-            b0 = H.pat_bindings(chain[0]['c']['pat'])
-            asg = {}
-            for n in walk(chain[0]['then']):
-                if n.get('k') == 'Assign' and n['l'].get('k') == 'Field':
-                    rl = H.root_local(n['r'])
-                    asg[n['l']['f']] = next((i for i, x in enumerate(b0) if rl is not None and x['hid'] == rl.get('hid')), None)
-            ck.ob('R12.4', 'both-given-assigns-both', asg == {'next_row': 0, 'next_column': 1}, L.loc(chain[0]), 'assignments: %s' % asg)
+                return re.sub(r'match ([^{]+) \{ ([^{}]*(?:\{[^{}]*\}[^{}]*)*) \}', fix, s_)
+
+            def mirror2(sig):
+                out = []
+                for x in sig:
+                    y = mirror(x).replace('ROWV', '\0R').replace('COLV', 'ROWV').replace('\0R', 'COLV')
+                    out.append(arms_canon(y))
+                return sorted(out)
+            s_row = list(next(iter(cases[(1,)])))
+            s_col = sorted(arms_canon(x) for x in next(iter(cases[(2,)])))
+            ck.ob('R12.4', 'row-only~column-only-mirror', mirror2(s_row) == s_col, L.loc(first),
+                  'the row-only and column-only cases are mirror images' if mirror2(s_row) == s_col else
+                  'row-only case %s is not the mirror image of column-only case %s' % (s_row, s_col))
+            both = sorted(next(iter(cases[(1, 2)])))
+            ck.ob('R12.4', 'both-given-assigns-both', both == ['next_column := COLV', 'next_row := ROWV'], L.loc(first), 'assignments with both given: %s' % both)
         adv = [n for n in walk(nx['body']) if n.get('k') == 'Match' and any(a['pat'].get('k') == 'PStruct' and H.pat_bindings(a['pat']) for a in n['arms'])]
         if len(adv) != 1 or len(adv[0]['arms']) != 2:
             ck.ob('R12.4', 'advance-shape', False, L.loc(nx['body']), 'expected one 2-arm match that advances the cursor')
